@@ -28,7 +28,8 @@ JudgeRun(t) ==
   ELSE LET r == HD!SameDocuments(t.din, t.dout)
        IN  IF ~r.ok
            THEN [ok |-> FALSE, at |-> r.at,
-                 why |-> r.why \o (IF HD!LostEmptyDocs(t.din, t.dout, 0) THEN ":empty-root-lost:" \o HD!LostKind(t.din, t.dout) ELSE "")]
+                 why |-> r.why \o (IF r.why = "tag" /\ r.at > 0 /\ HD!H!RedefinesDefault(t.din[r.at][1]) THEN ":default-handle-redefined"
+                                   ELSE IF HD!LostEmptyDocs(t.din, t.dout, 0) THEN ":empty-root-lost:" \o HD!LostKind(t.din, t.dout) ELSE "")]
            ELSE IF Len(t.snaps) # Len(t.din) THEN [ok |-> FALSE, why |-> "snapshot count", at |-> 0]
            ELSE IF \E j \in DOMAIN t.snaps : ~HD!IsPrefix(t.snaps[j], t.final)
            THEN [ok |-> FALSE, why |-> "text after a document is not kept",
